@@ -315,8 +315,12 @@ def _snapshot_hdd(path, c):
 def _snapshot_ram(res, c):
     recs = {}
     for key, w in res.results.items():
-        if not isinstance(key, str):   # a different key scheme: shown as it is, never matches a model key
-            key = "+".join(str(x) for x in key) if isinstance(key, tuple) else repr(key).replace(" ", "")
+        # RAMResults keys are tuples (strategy, dataset, part, str(fold)); any other scheme is shown as it is
+        # and then matches no expected key
+        if isinstance(key, tuple):
+            key = "+".join(str(x) for x in key)
+        elif not isinstance(key, str):
+            key = repr(key).replace(" ", "")
         recs[key] = ("%s@%s@%s" % (_ints(w.index), _vals(w.y_true, c), _vals(w.y_pred, c)), w)
     return recs, {}
 
@@ -528,7 +532,7 @@ def _honest(c):
 
 
 def _key_str(c, s, d, f, part):
-    return "%s/%s/%s_%s_%d" % (s, d, s, part, f) if c["store"] == "hdd" else "%s_%s_%s_%d" % (s, d, part, f)
+    return "%s/%s/%s_%s_%d" % (s, d, s, part, f) if c["store"] == "hdd" else "%s+%s+%s+%d" % (s, d, part, f)
 
 
 def _section(d, i, name, sep="|"):
@@ -562,6 +566,10 @@ def oracle(c, out):
                 collide = True
             key2item.setdefault(k, []).append((s, dn, f, part))
     prev_master, prev_reg = "none", "-+-"
+    old_ram_keys = {}   # the joined-string scheme RAMResults used before the tuple keys
+    for (s, dn, f) in all_items:
+        for part in ("train", "test"):
+            old_ram_keys.setdefault("%s_%s_%s_%d" % (s, dn, part, f), []).append((s, dn, f, part))
     requested_ever = set()   # (s, d, f, part) requested by some run so far
     strat_ever = False
     prev_recs, prev_strats = {}, {}
@@ -595,11 +603,15 @@ def oracle(c, out):
         # ---- every stored record is the honest record of its (strategy, dataset, fold, part); exactly one per key
         for k, content in recs.items():
             its = key2item.get(k)
+            if not its and not hdd and len(old_ram_keys.get(k, [])) > 1:
+                fails.append(("RAMResults._generate_key:collision",
+                              "run %d: joined-string key %s stands for %r: one record for several (strategy, dataset, fold, part)" % (i, k, old_ram_keys[k])))
+                continue
             if not its:
                 fails.append((site + ":record-under-unknown-key", "run %d: record %s is not the key of any strategy/dataset/fold/part" % (i, k)))
                 continue
             if len(its) > 1:
-                fails.append(("RAMResults._generate_key:collision",
+                fails.append(("generate_key:collision",
                               "run %d: key %s stands for %r: one record for several (strategy, dataset, fold, part)" % (i, k, its)))
                 continue
             if its[0] not in requested_ever:
@@ -861,8 +873,8 @@ def _exhaustive(rng, tier):
     return cases
 
 
-_NAMES = ["s0", "s1", "knn", "rf", "a_b", "x", "m1", "Z"]
-_DNAMES = ["d0", "d1", "gun", "ecg", "t_1", "w"]
+_NAMES = ["s0", "s1", "knn", "rf", "a_b", "a", "m1", "Z"]
+_DNAMES = ["d0", "d1", "gun", "b_c", "t_1", "c"]
 
 
 def _random_case(rng):
@@ -870,8 +882,8 @@ def _random_case(rng):
     store = "hdd" if rng.random() < 0.75 else "ram"
     kind = rng.choice(["kfold", "kfold", "kfold-shuffle", "single", "single-shuffle", "presplit", "presplit-inner"])
     nd = rng.choice([1, 1, 2, 2, 3]); ns = rng.choice([1, 2, 2, 3])
-    snames = rng.sample(_NAMES if store == "hdd" else [n for n in _NAMES if "_" not in n], ns)
-    dnames = rng.sample(_DNAMES if store == "hdd" else [n for n in _DNAMES if "_" not in n], nd)
+    snames = rng.sample(_NAMES, ns)
+    dnames = rng.sample(_DNAMES, nd)
     dss = []
     for nm in dnames:
         n = rng.randrange(5, 10)
